@@ -210,6 +210,39 @@ def file_writer(check, P, codecs):
     return n
 
 
+def console_writer(check, P):
+    """ConsoleWriter (a FileWriter on stdout/stderr): flushes after every statement, never closes the console."""
+    W = World(P, "ConsoleWriter", root_label="cw")
+    I = W.I
+    data = Bytes(Str((Text("line"),)), "utf-8")
+    n = 0
+
+    def seq(I_, _):
+        cw = I_.heap[W.ref("cw").addr]
+        cw.fields["_file"] = NONE
+        cw.fields["_output"] = Unk("console", "object")
+        W.call_method(I_, "cw", "write", (data,))
+        W.call_method(I_, "cw", "write", (data,))
+        W.call_method(I_, "cw", "disconnect", ())
+        return NONE
+    I.default_fact = lambda k: False if k.startswith("isinstance:console:") else None
+    done = 0
+    for path in I.explore(lambda I_: None, seq, max_dev=None, max_paths=5000):
+        n += 1
+        if path.outcome != "return":
+            continue
+        done += 1
+        calls = [(e.data["callee"].tag, e.data["args"]) for e in path.trace if e.kind == "EXT" and isinstance(e.data.get("callee"), Unk)]
+        order = [t.split(".")[-1] for t, a in calls if t.split(".")[-1] in ("write", "flush", "close", "open")]
+        d = [decisions_text(path)]
+        if order == ["write", "flush", "write", "flush"]:
+            check.ok("R5", "console: every statement is written and flushed at once; the console stream is never closed")
+        else:
+            check.violation("R5", "console:write-flush", f"ConsoleWriter performs {order} for two statements and a disconnect; expected write, flush, write, flush and no close", d)
+    check.floor(done >= 1, "C14.R5: ConsoleWriter sequence never completes")
+    return n
+
+
 def decoding_writers(check, P, codecs):
     data = Bytes(Str((Text("line"),)), "utf-8")
     # LogWriter
@@ -272,7 +305,7 @@ def run(check, repo, tier):
     check.floor(not (n1 < 500), f"C14.R1: only {n1} delivery obligations (floor 500)")
     P = cr.program
     n4 = registration(check, P)
-    n5 = file_writer(check, P, codecs)
+    n5 = file_writer(check, P, codecs) + console_writer(check, P)
     n3 = decoding_writers(check, P, codecs)
     names = {c.lower().replace("_", "-") if isinstance(c, str) else c for _, c in codecs}
     sites = sorted(s for s, _ in codecs)
